@@ -941,11 +941,18 @@ impl ClusterHandler for NocHandler {
             //     `CommissioningComplete` will persist; a fail-safe
             //     expiry will roll back via the usual fabric remove /
             //     reload path.
+            //   * The same holds while fabric-scoped writes of this
+            //     fabric (ACL, groups, group keys, label) are staged in
+            //     this fail-safe context with their store deferred: the
+            //     fabric is persisted as ONE record, so storing it here
+            //     would make those uncommitted changes permanent and the
+            //     expiry - which re-loads the stored record - could no
+            //     longer undo them. The VID-verification state rides
+            //     along with them instead.
             //   * Otherwise (no in-flight fabric mutation), the change
             //     is immediately persistent and SHALL NOT be reverted
             //     even if the caller later disarms the fail-safe.
-            let part_of_pending_fabric =
-                state.failsafe.is_armed() && state.failsafe.has_pending_noc_for(fab_idx);
+            let part_of_pending_fabric = state.failsafe.has_pending_changes_for(fab_idx);
             if !part_of_pending_fabric {
                 persist.store(fabric)?;
             }
